@@ -10,7 +10,7 @@ if [ ! -d $W/repo ]; then mkdir -p $W; git -C /repo worktree prune; git -C /repo
 cd $W/repo || exit 2
 git checkout -q --detach "$(git -C /repo rev-parse HEAD)" 2>/dev/null; git checkout -- . ; git clean -fdq -e target
 TESTNAME=$(basename "$DEST" .rs)
-cp "$OUT/demo.rs" "$DEST" || exit 2
+mkdir -p "$(dirname "$DEST")"; cp "$OUT/demo.rs" "$DEST" || exit 2
 echo "== demo WITHOUT patch (expect pass)"
 cargo test --offline -p "$PKG" --test "$TESTNAME" 2>&1 | grep -E "^test result|error(\[|:)|panicked" | head -5
 if ! git apply --check "$OUT/patch.diff" 2>/dev/null; then echo "PATCH DOES NOT APPLY"; git checkout -- .; git clean -fdq -e target; exit 1; fi
